@@ -76,6 +76,21 @@ def f1_effects(ctx):
         if mname == 'save_metadata':
             ctx.check(any(pat == 'cluster_NAME.tsv' for e, root, pat in sites if e.kind == 'write'), 'C10.F1', fi, mname,
                       'save_metadata(name, .) writes cluster_<name>.tsv', 'save_metadata does not write cluster_<name>.tsv')
+        if mname in ('save_metadata', 'save_spike_clusters'):
+            # the overwrite is unconditional: a save that is skipped for some values leaves the previous file, and a reload shows stale state
+            for e, root, pat in sites:
+                if e.kind != 'write':
+                    continue
+                conds = []
+                for g in e.all_guards():
+                    node, br, gfi = g
+                    if isinstance(node, ast.Try):
+                        continue
+                    conds.append((node, br, gfi))
+                ctx.check(not conds, 'C10.F1', e.fi, e.node, '%s always rewrites its file (the write is not conditional)' % mname,
+                          '%s writes its file only when `%s` is %s: for other values the previously saved file is left in place and a reload shows the stale mapping '
+                          '(e.g. saving a mapping whose entries are all None after a non-empty one)' %
+                          (mname, unparse(conds[0][0]) if conds else '', {True: 'true', False: 'false', 'after-exit': 'false'}.get(conds[0][1], conds[0][1]) if conds else ''))
         if mname == 'save_spike_clusters':
             ctx.check(any(e.kind == 'write' for e, root, pat in sites), 'C10.F1', fi, mname, 'save_spike_clusters writes the cluster file',
                       'save_spike_clusters writes nothing')
